@@ -16,10 +16,10 @@ PROP = dict(
     legs=[dict(name="c15_refs", src=["c15_refs.c"], libs=["mptplot", "mptio", "mptcore"], batch=256, lsan=True,
                ldflags=["-rdynamic"],
                floors=dict([(k, 1000) for k in KINDS] + [("buffer:share", 10000), ("buffer:share-at-max", 2000),
-                                                        ("meta:addref-at-max", 1000), ("meta:clone-created", 2000), ("meta:rawdata-filled", 1000), ("meta:reply-defer", 500), ("meta:reply-deferred-refused-send", 100), ("buffer:share-refused-type", 2000),
+                                                        ("meta:addref-at-max", 1000), ("meta:clone-created", 2000), ("meta:rawdata-filled", 1000), ("meta:reply-defer", 500), ("meta:reply-defer-twice", 200), ("meta:reply-defer-without-request", 200), ("meta:reply-deferred-refused-send", 100), ("buffer:share-refused-type", 2000),
                                                         ("monitor:assign-checks", 50000), ("monitor:refarray-checks", 100000), ("assign:refused-unshareable-source", 2000), ("monitor:buffer-lifetime-checks", 100000),
                                                         ("monitor:meta-lifetime-checks", 100000),
-                                                        ("mpt_stage_data", 50000), ("state:existing-dimension-of-shared-stage", 5000), ("monitor:stage-audits", 100000)])),
+                                                        ("mpt_stage_data", 50000), ("state:existing-dimension-of-shared-stage", 5000), ("monitor:stage-audits", 100000), ("mpt_notify_add", 20000), ("notify:add-refused", 3000), ("monitor:notify-checks", 20000)])),
           dict(name="c15_cxx", src=["c15_cxx.cpp"], libs=["mpt++", "mptio", "mptplot", "mptcore"], batch=256, lsan=True,
                floors={"reference:assign": 10000, "reference:move": 10000, "reference:detach": 10000, "reference:copy-at-max": 10000,
                        "monitor:reference-checks": 100000, "metatype::basic": 1000, "metatype::generic": 1000,
